@@ -425,8 +425,8 @@ func cmdCheck(args []string) {
 			"loops_without_variant": dedupStrs(noTerm), "explicit_assumes": assumes, "expected_clause_obligations": len(expected),
 			"known_findings_hit": knownHit, "samples": samples,
 			"evaluations": len(obls), "distinct_nontrivial": discharged,
-			"rule":             "one SMT query per generated obligation; an obligation is non-trivial when its goal is not syntactically true (all generated obligations are)",
-			"explanation":      explanation,
+			"rule":        "one SMT query per generated obligation; an obligation is non-trivial when its goal is not syntactically true (all generated obligations are)",
+			"explanation": explanation,
 			"second_pass_obligations": func() []string {
 				out := []string{}
 				for _, o := range obls {
